@@ -1,5 +1,7 @@
 //! Differential test, model side: storage / TTL scenario (must print exactly what
 //! /verif/realhost/src/bin/difftest.rs prints for the same seed).
+#[path = "/verif/difftests/collections.rs"]
+mod collections;
 use soroban_sdk::model::world;
 use soroban_sdk::Env;
 use std::panic;
@@ -33,6 +35,10 @@ fn main() {
     let steps: u64 = args.get(2).map(|s| s.parse().unwrap()).unwrap_or(400);
     let min_temp: u32 = args.get(3).map(|s| s.parse().unwrap()).unwrap_or(1);
     panic::set_hook(Box::new(|_| {}));
+    if args.get(4).map(|s| s.as_str()) == Some("collections") {
+        collections::run(&Env::default(), seed, steps);
+        return;
+    }
     let mut r = Lcg(seed);
     let e = Env::default();
     {
